@@ -63,6 +63,9 @@ class FieldCompositeModel(FieldModel):
         
         if in_set is None:
             in_set = set()
+        # An object reached again through a back reference 
+        # keeps the marking of its first visit
+        in_set.add(self)
 
         for f in self.field_l:
             if f not in in_set:
